@@ -44,6 +44,7 @@ def run(ck):
     ck.rule('R17.9', 'an unresolvable (dangling) super class does not hide what the other super classes provide')
     ck.rule('R17.10', 'class identity: Eq and Hash of the data reference agree and are by address')
     ck.rule('R17.11', 'what is found in the tables of a class is handed out as belonging to that class')
+    ck.rule('R17.12', 'type names stored in the type data (super classes, attached class, enum alias, property and method types) are resolved through the lexical scope')
 
     # ---- R17.1 ---------------------------------------------------------------------
     nx = next((f for f in L.fn_list if f['path'].startswith('<typemap::class::BaseClasses') and f['name'] == 'next'), None)
@@ -459,3 +460,39 @@ def run(ck):
                   'an entry found in the %s of `%s` is handed out as belonging to `%s`: an inherited member claims to be declared by the class the lookup started from '
                   '(its NOTIFY signal, overloads and inner types are then resolved from the wrong class)' % (r.get('f'), owner.get('name'), wrong[0].get('name')), fn=fn['path'])
     ck.floor('R17.11', n11, 4, 'member tables read together with an owner class')
+
+    # ---- R17.12 stored names are resolved, not merely looked up ------------------------------------------------------------------------------
+    # resolve_type*() walks the enclosing scopes and the imported modules; get_type*() looks at the space itself only. A name written in
+    # the type data refers to whatever is visible from where it was written, so it has to be resolved.
+    n12 = 0
+    for fn in L.fn_list:
+        pth = fn['path']
+        if not pth.startswith(('typemap::class::', 'typemap::enum_::', 'typemap::function::', 'typemap::util::', '<typemap::class::', '<typemap::enum_::', '<typemap::function::')):
+            continue
+        if (fn.get('impl_trait') or '').endswith('TypeSpace'):
+            continue        # the lookup API itself (get_type on self and its members)
+        for c in H.calls_in(fn['body']):
+            if c.get('k') != 'MCall' or c.get('m') not in ('resolve_type_scoped', 'resolve_type', 'get_type_scoped', 'get_type', 'resolve_enum_by_variant', 'get_enum_by_variant'):
+                continue
+            rt = (L.ty(c['recv'], adjusted=True) or '') + ' ' + (L.ty(c['recv']) or '')
+            rl = H.root_local(c['recv'])
+            on_other = 'ParentSpace' in rt or ('typemap::class::Class' in rt and (rl or {}).get('name') != 'self') or H.strip_refs(c['recv']).get('k') == 'Field'
+            if not on_other:
+                continue
+            n12 += 1
+            ck.analysed(pth)
+            ok = c['m'].startswith('resolve_')
+            ck.ob('R17.12', 'stored-name-resolved|%s|%s' % (short(pth), pp(H.strip_refs(c['recv']), maxlen=30)), ok, L.loc(c),
+                  '%s.%s(<stored name>): found through the enclosing scopes and imports' % (pp(H.strip_refs(c['recv']), maxlen=30), c['m']) if ok else
+                  '%s.%s(..) looks at that space only: a super class, alias or member type that lives in an imported module or an outer scope is reported as an invalid reference '
+                  '(derives-from and inherited members then disagree with the class graph)' % (pp(H.strip_refs(c['recv']), maxlen=30), c['m']), fn=pth)
+    ck.floor('R17.12', n12, 4, 'resolutions of stored type names')
+
+    # ---- R17.13 the component graph: which module a component's super-class name is looked up in (C18 R18.4, same facts) ----------------------
+    import core as _core13
+    import rules.c18 as c18
+    ck.rule('R17.13', 'a QML component resolves its root type in the same scope, in the same order, as a source document does (shared with C18)')
+    s18 = _core13.Shared(ck, 'R17.13', lambda r, k: r == 'R18.4' and (k.startswith('own-directory-imported') or k.startswith('base-directory-imported') or k == 'component-name-and-super' or k.startswith('every-import-kind')), 'C18:',
+                         ' [the super class of a component is whatever its root type name resolves to: the order of the import stack is part of the class graph]')
+    c18.run(s18)
+    ck.floor('R17.13', s18.count, 4, 'shared C18 R18.4 obligations')
